@@ -39,7 +39,26 @@ def streams_for(size: str) -> list:
         raws = jwire.split_delimited(e["data"])
         if len(raws) == 1:
             extra.append({**e, "name": e["name"] + "/nondelim", "data": raws[0]})
-    return out + extra + [noise_stream(), huge_frame_stream(), growing_frames_stream()]
+    one = single_5m_stream()
+    return out + extra + [noise_stream(), huge_frame_stream(), growing_frames_stream(), one,
+                          {**one, "name": one["name"] + "/nondelim",
+                           "data": jwire.split_delimited(one["data"])[0]}]
+
+
+def single_5m_stream() -> dict:
+    """One frame of 5 MB holding the whole stream; its non-delimited form is one message that a
+    reader must take from the source to the end, however large."""
+    from mc import drivers as DR  # noqa: PLC0415
+    from mc.terms import I, L  # noqa: PLC0415
+
+    seq = [(I("http://h/s"), I("http://h/p"), L("first")),
+           (I("http://h/s"), I("http://h/p"), L("w" * 5_000_000)),
+           (I("http://h/s"), I("http://h/q"), L("last"))]
+    data = DR.g_write(seq, "triple", DR.make_options("triple", (16, 4, 4), 250, True))
+    e = corpus._entry("single5m/triple", "triple", data, True)
+    e["big"] = True
+    e["file_only"] = True
+    return e
 
 
 def growing_frames_stream() -> dict:
